@@ -303,6 +303,15 @@ func init() {
 		if err := json.Unmarshal(b, &spec); err != nil {
 			panic(err)
 		}
+		// The parent asked for a far-away local time zone through TZ.  If the machine has no zone data for it Go
+		// silently falls back to UTC; then install the requested offset directly, before the application is built.
+		if v := os.Getenv("VERIF_FIXED_ZONE_SECONDS"); v != "" {
+			var off int
+			fmt.Sscan(v, &off)
+			if _, cur := time.Now().Zone(); cur == 0 && off != 0 {
+				time.Local = time.FixedZone("VRF", off)
+			}
+		}
 		ex := ExecuteMode(&spec, n) // -n carries the mode
 		eb, _ := json.Marshal(ex)
 		if err := os.WriteFile(filepath.Join(argAfter("-out"), "exec.json"), eb, 0o644); err != nil {
